@@ -9,7 +9,7 @@ let image_s (i : fs option) = match i with
   | Some s -> (match s.f_conf with None -> "!" | Some b -> dump (load_bytes b))
 let call_c (c : sys) = match c with
   | SOpenTrunc Conf -> "O" | SOpenTrunc Tmp -> "o" | SWrite (Conf, _) -> "W" | SWrite (Tmp, _) -> "w"
-  | SClose Conf -> "C" | SClose Tmp -> "c" | SRename (_, _) -> "R"
+  | SClose Conf -> "C" | SClose Tmp -> "c" | SRename (_, _) -> "R" | SWriteFail _ -> "x" | SUnlink _ -> "U"
 
 let st0 = { mem = []; disk = { f_conf = None; f_tmp = None } }
 
@@ -18,7 +18,9 @@ let save_keys (n : string) (before : state) (after : state) : string =
   let script = save_script before.mem in
   let imgs = images_from script before.disk in
   let atomic = crash_atomic_chk (restart before.disk) before.mem imgs in
-  Printf.sprintf ";f%s=%s;t%s=%s;c%s=%s;i%s=%s;a%s=%s" n (file_s after.disk.f_conf) n (file_s after.disk.f_tmp)
+  (* y: the settings file at the moment Synchronize() returns = after the complete script *)
+  let at_return = match fs_run fs_step script before.disk with Some d -> file_s d.f_conf | None -> "?hazard" in
+  Printf.sprintf ";y%s=%s;f%s=%s;t%s=%s;c%s=%s;i%s=%s;a%s=%s" n at_return n (file_s after.disk.f_conf) n (file_s after.disk.f_tmp)
     n (String.concat "" (List.map call_c script)) n (String.concat "|" (List.map image_s imgs))
     n (bool01 atomic)
 
@@ -80,6 +82,23 @@ let handle (payload : string) : string =
       let before = !st in
       st := step !st OSave; cls "save";
       emit ("s" ^ n ^ "=" ^ dump !st.mem ^ save_keys n before !st)
+    | ["Y"; k] ->
+      (* spurious wake-ups of the thread in Synchronize() change nothing (c18_sync) *)
+      let before = !st in
+      st := step !st OSave; cls (if ios k = 0 then "sync" else "sync-spurious");
+      emit ("s" ^ n ^ "=" ^ dump !st.mem ^ save_keys n before !st)
+    | ["W"; k] ->
+      let k = ios k in
+      let script = save_script_enospc !st.mem (nat_of_int k) in
+      let lines = List.length !st.mem in
+      cls (if k = 0 || k > lines then "write-ok" else if k = 1 then "enospc-first-write"
+           else if k = lines then "enospc-last-write" else "enospc-mid");
+      let imgs = images_from script !st.disk in
+      let atomic = crash_atomic_chk (restart !st.disk) !st.mem imgs in
+      let d = match fs_run fs_step script !st.disk with Some d -> d | None -> failwith "fs-hazard" in
+      st := { !st with disk = d };
+      emit (Printf.sprintf "s%s=%s;y%s=%s;f%s=%s;t%s=%s;a%s=%s" n (dump !st.mem) n (file_s d.f_conf) n (file_s d.f_conf)
+              n (file_s d.f_tmp) n (bool01 atomic))
     | ["X"; k] ->
       let before = !st in
       let total = List.length (save_script before.mem) in
